@@ -34,11 +34,14 @@ def task(name: str, item: Any) -> dict[str, Any]:
     if diff is None and ssb_machine.infos(infos, named) != ssb_machine.infos(comp.routine_infos, comp.named_coroutines):
         diff = "routine table differs"
     if diff is not None:
-        # no behavioural question here: a difference invalidates the S1 model/pools -> harness error, not a violation
-        return {"status": "harness_error", "what": "SsbScript round trip differs on a concrete input (S1 should have "
-                                                   "found it): " + diff + "\n" + text[:500]}
+        return {"status": "violation", "kind": "roundtrip", "program": item,
+                "what": "SsbScript round trip is not lossless: " + diff, "witness": {"ssbscript": text[:800]}}
     return {"status": "ok", "routines": len(ops), "equal": len(ops),
             "sample": {"ssbscript": text[:200], "ops": sum(len(r) for r in ops)}}
+
+
+def replay(name: str, item_repr: str, witness: Any) -> bool:
+    return task(name, trun.parse_prog(item_repr))["status"] != "violation"
 
 
 def run(tier: str, seed: int, known: list[dict[str, Any]]) -> dict[str, Any]:
@@ -46,9 +49,6 @@ def run(tier: str, seed: int, known: list[dict[str, Any]]) -> dict[str, Any]:
     items += list(f6_raw(seed, 300 if tier == "quick" else 5000, 6 if tier == "quick" else 9))
     r = trun.run_family("C07", "C07.E3", task, items, known, None,
                         bounds="model validation: F6 inputs through the SsbScript round trip, op-for-op comparison")
-    r["engine"] = "V"
-    r["headline"] = f"{r['programs']} concrete routine sets round-tripped op for op (model validation), " \
-                    f"{len(r['harness_errors'])} differences"
-    # model validation does not count as solver obligations
+    r["headline"] = f"{r['programs']} concrete routine sets round-tripped op for op, {r['disagreements_checked']} differences"
     r["obligations"] = r["discharged"] = r["distinct_nontrivial"] = 0
     return r
